@@ -107,7 +107,7 @@ def coq_op(c):
     op, a = c["op"], c["args"]
     if op == "new":
         return "(ONew %s)" % z(a[0])
-    if op == "read":
+    if op in ("read", "readfar"):     # readfar: the same token placed across the Reader's 64 KiB refill boundary
         return "(ORead %s)" % z(a[0])
     if op == "neg":
         return "(ONeg %s)" % z(a[0])
@@ -139,7 +139,7 @@ def base_op(op):
 
 def nontrivial(c, obs):
     m, a, op = c["m"], c["args"], base_op(c["op"])
-    if op in ("new", "read"):
+    if op in ("new", "read", "readfar"):
         return not (0 <= a[0] < m)
     if op == "neg":
         return a[0] % m != 0
@@ -274,6 +274,11 @@ def generate(rng, tier):
             cases.append(case(m, "new", v))
             if rng.chance(1, 2):
                 cases.append(case(m, "read", v))
+        # a value that arrives after 64 KiB of earlier input: its token straddles the Reader's refill boundary
+        for v in [rng.choice(ca) for _ in range(3 if not thorough else 12)] + [I64_MIN, I64_MAX]:
+            L = len(str(v))
+            for d in sorted({1, 2, L // 2, L - 1, L, L + 1} - {0}):
+                cases.append(case(m, "readfar", v, d))
         for _ in range(nr * 2):
             a, b = rng.choice(ca), rng.choice(ca)
             cases.append(case(m, rng.choice(BINOPS + ["eq", "adda", "suba", "mula", "diva"]), a, b))
@@ -347,7 +352,7 @@ def py_ok(c, obs):
     r = int(t[1])
     if not 0 <= r < m:
         return False
-    if op in ("new", "read"):
+    if op in ("new", "read", "readfar"):
         return r == a[0] % m
     if op == "neg":
         return r == (-a[0]) % m
